@@ -153,43 +153,92 @@ def run(prog, tier, res):
     reads_in_loop = all(any(bb in b.natural_loop(tl, hd) for (tl, hd) in b.back_edges()) for bb, _ in entries)
     check(res, R3, reads_in_loop, MAIN, "append-in-loop", "bank data is not appended inside the file/event/bank loops", b.where())
 
-    # ------------------------------------------------------------------ R4 split_last arms
+    # ------------------------------------------------------------------ R4 the two arms that take a piece apart
+    # forms: `match piece.split_last() { Some((&Marker(m), rest)) => (Some(m), rest), Some(_) => (None, piece), .. }` or the
+    # slice patterns `[rest @ .., Marker(m)] => (Some(*m), rest)`, `_ => (None, piece)`
     sl = [(bb, t) for bb, t in b.calls() if short(cname(t)) == "<impl [T]>::split_last"]
     ok4 = False
     detail = ""
-    if len(sl) == 1:
-        slbb, slt = sl[0]
-        chunk = unmut(an.terms.operand(slt["args"][0]))
-        # the tuple (next_marker, timestamps): a multi-def local of tuple type
-        cands = [l for l in range(len(b.locals)) if b.locals[l]["ty"].get("k") == "tuple" and len(an.terms.defs.whole[l]) == 2
-                 and "FifoEntry" in pp.ty(b.locals[l]["ty"]) and "Option" in pp.ty(b.locals[l]["ty"])]
-        for l in cands:
-            arms = []
-            for (bi, si, x) in an.terms.defs.whole[l]:
-                v = strip(an.terms.rvalue(x)) if si != "t" else None
-                atoms = [atom_str(a) for (d, rel, vals) in an.atoms_at(bi) for a in sy.atoms(d, rel, vals)]
-                is_marker_arm = any(a.startswith("variant ") and a.endswith("in ('WrapAroundMarker',)") and " notin " not in a for a in atoms)
-                not_marker_arm = any(a.startswith("variant ") and ("notin ('WrapAroundMarker',)" in a or a.endswith(" in ('TimestampCounter',)")) for a in atoms)
-                arms.append((v, is_marker_arm, not_marker_arm))
-            good = 0
-            for v, is_m, not_m in arms:
-                if v is None or v[0] != "aggr" or v[1] != "tuple" or len(v[2]) != 2:
-                    continue
-                first, second = strip(v[2][0]), unmut(v[2][1])
-                if is_m:
-                    # (Some(marker), rest-of-split_last)
-                    rest_ok = second[0] == "field" and second[2] == 1 and any(x[0] == "call" and x[3] == slbb for x in walk(second))
-                    if first[0] == "aggr" and first[1].endswith("Option::Some") and rest_ok:
-                        good += 1
-                    else:
-                        detail = "marker arm does not yield (Some(marker), everything before it)"
-                elif not_m:
-                    if first[0] == "aggr" and first[1].endswith("Option::None") and same(second, chunk):
-                        good += 1
-                    else:
-                        detail = "the arm for a piece that does not end in a marker does not keep the whole piece (its last timestamp would be dropped)"
-            if good == 2:
-                ok4 = True
+    cands = [l for l in range(len(b.locals)) if b.locals[l]["ty"].get("k") == "tuple" and len(an.terms.defs.whole[l]) == 2
+             and "FifoEntry" in pp.ty(b.locals[l]["ty"]) and "Option" in pp.ty(b.locals[l]["ty"])]
+    si_calls = [(bb, t) for bb, t in b.calls() if short(cname(t)) == "<impl [T]>::split_inclusive"]
+
+    def piece_of(x):
+        """the piece (an item of the split_inclusive iterator) a term is taken from, or None"""
+        x = unmut(x)
+        if x[0] == "field" and x[2] == 0 and unmut(x[1])[0] == "downcast":
+            nx = unmut(unmut(x[1])[1])
+            if nx[0] == "call" and short(nx[1]) == "Iterator::next" and any(y[0] == "call" and si_calls and y[3] == si_calls[0][0] for y in walk(nx)):
+                return x
+        return None
+
+    def last_of(x):
+        """x is the last element of a piece: split_last().0 or piece[len-1] (pattern `[.., last]`); returns the piece"""
+        x = unmut(x)
+        if x[0] == "cindex" and x[2] == 1 and x[3]:
+            return piece_of(x[1])
+        if x[0] == "field" and x[2] == 0:
+            y = unmut(x[1])
+            if y[0] == "field" and y[2] == 0 and unmut(y[1])[0] == "downcast":
+                c = unmut(unmut(y[1])[1])
+                if c[0] == "call" and short(c[1]) == "<impl [T]>::split_last":
+                    return piece_of(c[2][0])
+        return None
+
+    def init_of(x):
+        """x is everything before the last element of a piece: split_last().1 or `rest @ ..` before one trailing element"""
+        x = unmut(x)
+        if x[0] == "subslice" and x[2] == 0 and x[3] == 1 and x[4]:
+            return piece_of(x[1])
+        if x[0] == "field" and x[2] == 1:
+            y = unmut(x[1])
+            if y[0] == "field" and y[2] == 0 and unmut(y[1])[0] == "downcast":
+                c = unmut(unmut(y[1])[1])
+                if c[0] == "call" and short(c[1]) == "<impl [T]>::split_last":
+                    return piece_of(c[2][0])
+        return None
+    for l in cands:
+        arms = []
+        for (bi, si, x) in an.terms.defs.whole[l]:
+            v = strip(an.terms.rvalue(x)) if si != "t" else None
+            # which element the arm's variant test looks at
+            is_marker_arm = not_marker_arm = False
+            for (d, rel, vals) in an.atoms_at(bi):
+                d0 = unmut(d)
+                if d0[0] == "discr" and last_of(d0[1]) is not None:
+                    for a in sy.atoms(d, rel, vals):
+                        sa = atom_str(a)
+                        if sa.startswith("variant ") and sa.endswith(" in ('WrapAroundMarker',)"):
+                            is_marker_arm = True
+                        if sa.startswith("variant ") and sa.endswith(" in ('TimestampCounter',)"):
+                            not_marker_arm = True
+            arms.append((v, is_marker_arm, not_marker_arm, bi))
+        good = 0
+        for v, is_m, not_m, bi in arms:
+            if v is None or v[0] != "aggr" or v[1] != "tuple" or len(v[2]) != 2:
+                continue
+            first, second = strip(v[2][0]), unmut(v[2][1])
+            if is_m:
+                # (Some(the marker that is the last element), everything before it)
+                mk = None
+                if first[0] == "aggr" and first[1].endswith("Option::Some") and len(first[2]) == 1:
+                    pl = unmut(first[2][0])
+                    if pl[0] == "field" and pl[2] == 0 and unmut(pl[1])[0] == "downcast" and unmut(pl[1])[2] == "WrapAroundMarker":
+                        mk = last_of(unmut(pl[1])[1])
+                rest = init_of(second)
+                if mk is not None and rest is not None and same(mk, rest):
+                    good += 1
+                else:
+                    detail = "marker arm does not yield (Some(marker), everything before it)"
+            else:
+                # every other arm keeps the whole piece (also when it is not the explicit `TimestampCounter` arm: `_ =>`)
+                pc = piece_of(second)
+                if first[0] == "aggr" and first[1].endswith("Option::None") and pc is not None:
+                    good += 1
+                else:
+                    detail = "the arm for a piece that does not end in a marker does not keep the whole piece (its last timestamp would be dropped)"
+        if good == 2 and sum(1 for a in arms if a[1]) == 1:
+            ok4 = True
     check(res, R4, ok4, MAIN, "split-last-arms", "element conservation broken in the row loop: %s" % (detail or "cannot find the two split_last arms"), b.where(sl[0][0]) if sl else b.where())
     # the pieces come from split_inclusive on markers over the validated fifo
     si_ = [(bb, t) for bb, t in b.calls() if short(cname(t)) == "<impl [T]>::split_inclusive"]
